@@ -76,6 +76,14 @@ impl Partition {
             self.partition_id,
             self.current_offset
         );
+        // A poll that reaches below the earliest retained offset (older segments were
+        // removed) starts from the earliest message that is still available.
+        let start_offset = match self.segments.first() {
+            Some(first_segment) if start_offset < first_segment.start_offset => {
+                first_segment.start_offset
+            }
+            _ => start_offset,
+        };
         if self.segments.is_empty() || start_offset > self.current_offset {
             return Ok(Vec::new());
         }
